@@ -199,6 +199,9 @@ def thorough(ctx, tree, catalog: list[Mutant]) -> None:
         return  # never recurse from inside a mutant run
     neutral_sweep(ctx)
     run_seeded_in_memory(ctx)
+    from .neutraltest import run_neutral_in_memory
+
+    run_neutral_in_memory(ctx)
     results = run_catalog(ctx.pid, catalog, seed=ctx.seed)
     summary = {"killed": 0, "silent": 0, "skipped": 0, "detected-as-analysis-error": 0, "SURVIVED": 0, "FALSE-ALARM": 0}
     for r in results:
